@@ -246,7 +246,7 @@ func c16Run(r *vkit.Run) {
 		text string
 		ns   int64
 	}
-	sinces := []dur{{"5m", int64(5 * time.Minute)}, {"1h", int64(time.Hour)}, {"1d", int64(24 * time.Hour)}, {"1h30m", int64(90 * time.Minute)}, {"2w", int64(14 * 24 * time.Hour)}}
+	sinces := []dur{{"0s", 0}, {"0", 0}, {"0h0m0s", 0}, {"5m", int64(5 * time.Minute)}, {"1h", int64(time.Hour)}, {"1d", int64(24 * time.Hour)}, {"1h30m", int64(90 * time.Minute)}, {"2w", int64(14 * 24 * time.Hour)}}
 	steps := []dur{{"5", int64(5 * time.Second)}, {"0.5", int64(500 * time.Millisecond)}, {"90", int64(90 * time.Second)}, {"5m", int64(5 * time.Minute)}, {"1h30m", int64(90 * time.Minute)}, {"1d", int64(24 * time.Hour)}, {"15s", int64(15 * time.Second)}, {"250ms", int64(250 * time.Millisecond)}}
 	t0 := int64(1700000000) * 1e9
 	spans := []int64{0, 1, 249, 250, 251, 499, 500, 999, 21600, 86400, 604800, 2500000}
@@ -345,7 +345,7 @@ func c16Run(r *vkit.Run) {
 			r.NonTrivial()
 		}
 	})
-	r.Note("bounds", fmt.Sprintf("instants: every %d s between 2001 and 2200 plus +-3 s around digit-length and 32-bit boundaries, in 5 spellings, as --start and as --end; all 1000 ms fractions of 3 base seconds in 4 spellings; 12 spans x 4 clocks x 16 flag subsets x 5 since x 8 step spellings; 11+9 malformed spellings per flag; 10 non-positive steps; every value travels through the command's own flag set (pflag parsing, APIFlag.Set); end to end (argv -> request sent to the fake daemon and printed records): 2 starts x 3 spans x all spelling pairs x 2 argv forms, and --end with --since", stride))
+	r.Note("bounds", fmt.Sprintf("instants: every %d s between 2001 and 2200 plus +-3 s around digit-length and 32-bit boundaries, in 5 spellings, as --start and as --end; all 1000 ms fractions of 3 base seconds in 4 spellings; 12 spans x 4 clocks x 16 flag subsets x 8 since (incl. zero) x 8 step spellings; 11+9 malformed spellings per flag; 10 non-positive steps; every value travels through the command's own flag set (pflag parsing, APIFlag.Set); end to end (argv -> request sent to the fake daemon and printed records): 2 starts x 4 spans (incl. start = end) x all spelling pairs x 2 argv forms, and --end with --since", stride))
 }
 
 // ---- end to end: the command itself, from argv to the request sent to the daemon ----
@@ -376,6 +376,9 @@ type c16E2EObs struct {
 // c16E2ERecords: three records inside the window (not on its edges). The fake daemon does not filter by
 // since/until, and whether the engine drops records outside the window is no part of C16, so there are none.
 func c16E2ERecords(startSec, endSec int64) (recs []fakedocker.Rec, inside []string) {
+	if startSec == endSec { // the window is one instant
+		return []fakedocker.Rec{{Stream: 1, TS: fakedocker.TS(startSec * 1e9), Msg: "m0"}}, []string{"m0"}
+	}
 	mid := startSec + (endSec-startSec)/2
 	for i, ts := range []int64{startSec + 1, mid, endSec - 1} {
 		msg := fmt.Sprintf("m%d", i)
@@ -434,7 +437,7 @@ func c16E2ERun(r *vkit.Run, one func(fn func(), nontrivial bool)) {
 	// explicit --start and --end in every spelling pair; --end with --since; all in the past, so the
 	// wall clock (which RunE reads itself) has no influence on the expected window
 	for _, startSec := range []int64{999999990, 1700000000} {
-		for _, span := range []int64{10, 3600, 90000} {
+		for _, span := range []int64{0, 10, 3600, 90000} {
 			endSec := startSec + span
 			_, inside := c16E2ERecords(startSec, endSec)
 			for _, st := range c16Spellings(startSec * 1e9) {
